@@ -102,7 +102,17 @@ func scenSubScript(script []string) *connRun {
 			ctx, cancel := context.WithCancel(context.Background())
 			s.cancel = cancel
 			e.tr.ev("call.issue", tok, "sub")
-			ch, err := e.cl.Sub(ctx, tok, 2)
+			var ch <-chan int
+			var err error
+			if name == strings.ToLower(name) {
+				// lower-case names: the subscribing method has the channel as its only result
+				ch = e.cl.SubOnly(ctx, tok, 2)
+				if ch == nil {
+					err = fmt.Errorf("nil channel")
+				}
+			} else {
+				ch, err = e.cl.Sub(ctx, tok, 2)
+			}
 			if err != nil {
 				e.tr.ev("call.return", tok, "other:"+err.Error())
 				fail("step %d (%s): opening subscription %s failed: %v", si, item, name, err)
@@ -222,6 +232,8 @@ func subScripts(seed uint64, tier string) [][]string {
 		f("oA oB F oC oD cB pC cA pD eC eD"),
 		f("oA pA F oB F oC cA cB pC eC"),
 		f("oA eA F oB pB cB"),
+		f("ox oB px cB ex"), // a subscribing method whose only result is the channel
+		f("oA oy ey pA F oz pz ez"),
 	}
 	n := 4
 	if tier == "thorough" {
